@@ -17,7 +17,9 @@ LOOP_FUNCS = [
     (r"xsimd::kernel::detail::tgamma_other<", 182, "tgamma_other"),
     (r"xsimd::kernel::detail::lgamma_impl<xsimd::batch<double, [^>]+> ?>::other\(", 40, "lgamma_impl<double>::other"),
     (r"xsimd::kernel::detail::lgamma_impl<xsimd::batch<float, [^>]+> ?>::other\(", 8, "lgamma_impl<float>::other"),
+    (r" xsimd::detail::ipow<", 66, "ipow"),
 ]
+IPOW_SCALAR = [("float", "int"), ("double", "int"), ("double", "long"), ("float", "short"), ("double", "unsigned long")]
 CALLERS = [
     (r"xsimd::kernel::detail::lgamma_impl<xsimd::batch<double, [^>]+> ?>::compute\(", "lgamma_impl<double>::compute"),
     (r"xsimd::kernel::detail::lgamma_impl<xsimd::batch<float, [^>]+> ?>::compute\(", "lgamma_impl<float>::compute"),
@@ -54,6 +56,10 @@ def run(tier, seed):
             n = "e_ipow__%s__%s" % (t, a)
             tu.append('extern "C" void %s(%s* r, %s const* x, int k) { *r = xsimd::pow(*x, k); }' % (n, B, B))
             roots.append(n)
+    for k, (t0, t1) in enumerate(IPOW_SCALAR):
+        n = "es_ipow_%d" % k
+        tu.append('extern "C" void %s(%s* r, %s x, %s k) { *r = xsimd::pow(x, k); }' % (n, t0, t0, t1))
+        roots.append(n)
     bc, fnmap, tsec = pipeline.compile_tu(wd, "c14", "\n".join(tu) + "\n")
     fns = pipeline.discover(fnmap)
     keep = sorted(fns.keys())
@@ -125,7 +131,7 @@ def run(tier, seed):
     # (attempted in the thorough tier); the iteration bound is discharged as unwinding assertions of plain CBMC on the fully inlined
     # function instead -- complete for the claim "at most K iterations for every argument in the range", labelled as such in the evidence
     for n in sorted(loopfn):
-        if loopfn[n][1] == "tgamma_other":
+        if loopfn[n][1] in ("tgamma_other", "ipow"):
             continue
         if tier == "quick" and loopfn[n][1] != "lgamma_impl<float>::other":
             rep.bounded.append({"function": fnmap[n]["demangled"][:140], "status": "not run in the quick tier (query needs > 15 min); run in the thorough tier"})
@@ -138,8 +144,9 @@ def run(tier, seed):
               (re.match(r"^xsimd::batch<[^()]*> xsimd::(%s)<" % "|".join(MATH_UNARY + MATH_BINARY), f["demangled"]) or
                # polynomial kernels evaluated after / between the loops (straight-line Horner schemes, dozens of fused multiply-adds)
                re.search(r"xsimd::kernel::detail::(gammaln\w+<[^()]*>|tgamma_kernel<.*>::compute)\(", f["demangled"]))}
-    lj = [{"target": n, "out": os.path.join(wd, "W_%s.c" % sha(n)), "opts": {"loops_as_while": True}, "keep": sorted(opaque)} for n in sorted(loopfn)
-          if loopfn[n][1] == "tgamma_other" or tier == "thorough"]
+    # (ipow keeps its scalar locals in memory -- no SROA -- so that the loop contract can name the source variable b)
+    lj = [{"target": n, "out": os.path.join(wd, "W_%s.c" % sha(n)), "opts": {"loops_as_while": True, "sroa": loopfn[n][1] != "ipow"}, "keep": sorted(opaque)} for n in sorted(loopfn)
+          if loopfn[n][1] in ("tgamma_other", "ipow") or tier == "thorough"]
     lres = pipeline.run_ll2c(bc, lj, wd, "c14w", keep_all=keep)
     # the recursion lgamma<double> -> large_negative -> lgamma(|x|) is cut at the public lgamma (stubbed: its own obligations are separate)
     lg_api = [n for n, f in fnmap.items() if f.get("defined") and re.search(r"xsimd::batch<(float|double), [^>]+> xsimd::lgamma<", f["demangled"])]
@@ -184,10 +191,13 @@ def run(tier, seed):
         dem = r["target"]["demangled"]
         m = re.search(r"xsimd::batch<(float|double), (xsimd::[A-Za-z0-9_<>:]+?)>", dem)
         aid = [k for k, v in ARCHS.items() if m and v[0] == m.group(2)]
-        if not aid:
+        if label == "ipow":
+            tid, aid = None, None
+        elif not aid:
             rep.infra.append({"fn": label, "detail": "cannot determine architecture of " + dem})
             continue
-        tid, aid = ("f64" if m.group(1) == "double" else "f32"), aid[0]
+        else:
+            tid, aid = ("f64" if m.group(1) == "double" else "f32"), aid[0]
         try:
             ltxt, ghosts, bounds, nspec = c14loops.contracts(label, r, tid, aid)
             txt = ['#include "spec.h"\n', ltxt]
@@ -208,7 +218,7 @@ def run(tier, seed):
                 txt.append(gen.contract_text(cctx, c["name"]))
                 replace.append(c["name"])
             ps = [p for p in r["target"]["params"] if not p["sret"]]
-            req = pre_for(label, ps, r, dem)
+            req = pre_for(label, ps, r, dem) if label != "ipow" else []
         except (Infra, gen.Unsupported) as e:
             rep.infra.append({"fn": label, "detail": str(e)})
             continue
@@ -233,7 +243,7 @@ def run(tier, seed):
         H.append('  __CPROVER_assert(0, "canary: end of harness is reachable");')
         H.append("}")
         nloops = len(r.get("while_loops", []))
-        title = "%s [%s] loop contracts" % (label, dem.split("(")[0][-70:])
+        title = "%s [%s] loop contracts" % (label, (dem.split("(")[0] if label != "ipow" else dem[dem.find("ipow<"):].split("(")[0])[-70:])
         note = ("%d loops, each with invariant + decreases + ghost iteration counter: iterations bounded by %s for every argument in the stated range; "
                 "callees (%d) replaced by their contracts" % (nloops, bounds, len(replace)))
         if nloops != nspec:
